@@ -198,6 +198,78 @@ pub fn ep_twin_prelude(rng: &mut Rng) -> Vec<HStep> {
     vec![]
 }
 
+/// Same board, same mover, different castling/en-passant state: both kings and all four rooks at
+/// home (so every subset of rights is possible), an en-passant capture available on a chosen
+/// file, a few extra pieces. The position with the capture is searched first, then twins whose
+/// rights code is a neighbour (+1, -1, one right toggled) and that have no en-passant square:
+/// whatever the table kept for the first must not be used for the twins (and the other way
+/// round).
+pub fn state_twin_prelude(rng: &mut Rng) -> Vec<HStep> {
+    use chess_oracle as o;
+    for _ in 0..100 {
+        let white = rng.chance(1, 2);
+        let vf: i8 = if rng.chance(1, 2) { *rng.pick(&[0i8, 7]) } else { rng.below(8) as i8 };
+        let cf = if vf == 0 { 1 } else if vf == 7 { 6 } else if rng.chance(1, 2) { vf - 1 } else { vf + 1 };
+        let r = if white { 4 } else { 3 };
+        let mut p = Pos::empty();
+        for (sq, k, w) in [(4u8, o::KING, true), (0, o::ROOK, true), (7, o::ROOK, true), (60, o::KING, false), (56, o::ROOK, false), (63, o::ROOK, false)] {
+            p.b[sq as usize] = o::mk(k, w);
+        }
+        p.b[o::sq(cf, r) as usize] = o::mk(o::PAWN, white);
+        p.b[o::sq(vf, r) as usize] = o::mk(o::PAWN, !white);
+        for _ in 0..rng.below(4) {
+            let s = o::sq(rng.below(8) as i8, 2 + rng.below(4) as i8) as usize;
+            if p.b[s] == o::EMPTY {
+                p.b[s] = o::mk(*rng.pick(&[o::PAWN, o::KNIGHT, o::BISHOP, o::PAWN]), rng.chance(1, 2));
+            }
+        }
+        // the squares the victim pawn passed must be empty
+        let (home, mid) = if white { (6, 5) } else { (1, 2) };
+        if p.b[o::sq(vf, home) as usize] != o::EMPTY || p.b[o::sq(vf, mid) as usize] != o::EMPTY {
+            continue;
+        }
+        p.white_to_move = white;
+        p.ep = Some(vf as u8);
+        let n1 = rng.below(16) as u8;
+        let set = |p: &mut Pos, n: u8| {
+            for i in 0..4 {
+                p.castle[i] = n & (1 << i) != 0;
+            }
+        };
+        set(&mut p, n1);
+        if !p.is_sane() {
+            continue;
+        }
+        let mut codes: Vec<u8> = vec![n1.wrapping_sub(1) & 15, (n1 + 1) & 15, n1 ^ 1, n1 ^ 2, n1 ^ 4, n1 ^ 8, n1];
+        codes.dedup();
+        let step = |r: Root, l: u8| HStep { root: r, limit: Some(l), stop_at: 0, clear_table: false };
+        let d = 2 + rng.below(3) as u8;
+        let a = Root { fen: fen::render6(&p, 0, 1), moves: vec![] };
+        let mut steps = vec![];
+        let twins_first = rng.chance(1, 3);
+        if !twins_first {
+            steps.push(step(a.clone(), d));
+        }
+        for c in codes {
+            let mut q = p.clone();
+            q.ep = None;
+            set(&mut q, c);
+            if !q.is_sane() {
+                continue;
+            }
+            let b = Root { fen: fen::render6(&q, 0, 1), moves: vec![] };
+            steps.push(step(b.clone(), d));
+            steps.push(step(b, 1));
+        }
+        if twins_first {
+            steps.push(step(a.clone(), d));
+            steps.push(step(a, 1));
+        }
+        return steps;
+    }
+    vec![]
+}
+
 /// A root taken from a random game (biased to a maximum piece count when `max_pieces` < 32).
 pub fn random_root_plain(corpus: &[String], rng: &mut Rng, max_pieces: usize) -> Root {
     for _ in 0..50 {
@@ -410,11 +482,12 @@ pub fn make_history(corpus: &[String], rng: &mut Rng, len: usize, max_depth: u8)
     }
     let moves = game_moves(&spec);
     let mut steps = vec![];
-    match rng.below(8) {
+    match rng.below(9) {
         0 => steps.extend(dead_end_prelude(rng)),
         1 | 2 => steps.extend(doomed_prelude(rng)),
         3 | 4 => steps.extend(doomed_line_prelude(rng)),
         5 | 6 => steps.extend(ep_twin_prelude(rng)),
+        7 => steps.extend(state_twin_prelude(rng)),
         _ => {}
     }
     let mut ply = if moves.is_empty() { 0 } else { rng.below(moves.len().min(40) + 1) };
